@@ -292,6 +292,26 @@ def job_wide(width):
     return acc
 
 
+UNITS = ['\\n', '\\|', '\\\\', 'a\\n', '\\|\\\\', 'x', ' \\n ', '\\n\\|\\\\']
+
+
+@worker
+def job_long_cells(ui):
+    """One cell made of n repetitions of an escape unit, n = 0..300 (every count, so every internal limit on the number of escapes /
+    characters per cell lies inside), alone and between two ordinary cells; via table_cells and through the parser."""
+    acc = Acc()
+    u = UNITS[ui]
+    t = None
+    for n in range(0, 301):
+        for row in ('| ' + u * n + ' |', '|k|' + u * n + '|' + u * (n // 2) + '| z |'):
+            check_row('    ' + row, acc)
+            if n % 8 in (0, 1):
+                t = 'Feature: f\n  Scenario: s\n    Given g\n      ' + row + '\n'
+                check_doc(t, acc, 'table')
+    acc.sample({'text': (t or '')[:120]})
+    return acc
+
+
 def run(ctx):
     probs = R.selftest()
     ctx.selftest(not probs, 'reference pipeline reproduces the acceptance corpus (%s)' % (probs[:3] or 'ok'))
@@ -311,6 +331,7 @@ def run(ctx):
     ctx.notes['unicode_blanks'] = len(ub)
     ctx.level('every Unicode blank in cells (%d characters)' % len(ub), [job_blanks.job(ub[i:i + 4]) for i in range(0, len(ub), 4)])
     ctx.level('table shapes rows<=4', [job_rect.job(n) for n in (1, 2, 3, 4)])
+    ctx.level('cells of 0..300 escape units', [job_long_cells.job(i) for i in range(len(UNITS))])
     ctx.level('wide tables (cells per row around 256 / 1000)', [job_wide.job(w) for w in (255, 256, 257, 258, 300, 1000)])
 
 
